@@ -222,6 +222,14 @@ static inline int should_block(int fd) {
   return 0;
 }
 
+// A fiber can resume on a different kernel thread after fiber_wait_for_event().
+// glibc declares __errno_location() __attribute__((const)), so within one
+// function the compiler may keep using the errno of the thread the fiber ran
+// on before it waited. Look the location up again on every test.
+static __attribute__((noinline)) int fiber_io_would_block() {
+  return errno == EWOULDBLOCK || errno == EAGAIN;
+}
+
 static int setup_socket(int sock) {
   if (thread_locked) {
     return 0;
@@ -286,7 +294,7 @@ int accept(ACCEPTPARAMS) {
   }
 
   int sock = fibershim_accept(sockfd, addr, addrlen);
-  while (sock < 0 && (errno == EWOULDBLOCK || errno == EAGAIN) &&
+  while (sock < 0 && fiber_io_would_block() &&
          should_block(sockfd)) {
     if (!fiber_wait_for_event(sockfd, FIBER_POLL_IN)) {
       return -1;
@@ -318,7 +326,7 @@ ssize_t read(int fd, void* buf, size_t count) {
       }
     }
     ret = fibershim_read(fd, buf, count);
-  } while (ret < 0 && (errno == EWOULDBLOCK || errno == EAGAIN) &&
+  } while (ret < 0 && fiber_io_would_block() &&
            should_block(fd));
 
   return ret;
@@ -337,7 +345,7 @@ ssize_t readv(int fd, const struct iovec* iov, int iovcnt) {
       }
     }
     ret = fibershim_readv(fd, iov, iovcnt);
-  } while (ret < 0 && (errno == EWOULDBLOCK || errno == EAGAIN) &&
+  } while (ret < 0 && fiber_io_would_block() &&
            should_block(fd));
 
   return ret;
@@ -356,7 +364,7 @@ ssize_t recv(int fd, void* buf, size_t len, int flags) {
       }
     }
     ret = fibershim_recv(fd, buf, len, flags);
-  } while (ret < 0 && (errno == EWOULDBLOCK || errno == EAGAIN) &&
+  } while (ret < 0 && fiber_io_would_block() &&
            !(flags & MSG_DONTWAIT) && should_block(fd));
 
   return ret;
@@ -375,7 +383,7 @@ ssize_t recvfrom(RECVFROMPARAMS) {
       }
     }
     ret = fibershim_recvfrom(sockfd, buf, len, flags, src_addr, addrlen);
-  } while (ret < 0 && (errno == EWOULDBLOCK || errno == EAGAIN) &&
+  } while (ret < 0 && fiber_io_would_block() &&
            !(flags & MSG_DONTWAIT) && should_block(sockfd));
 
   return ret;
@@ -394,7 +402,7 @@ ssize_t recvmsg(int sockfd, struct msghdr* msg, int flags) {
       }
     }
     ret = fibershim_recvmsg(sockfd, msg, flags);
-  } while (ret < 0 && (errno == EWOULDBLOCK || errno == EAGAIN) &&
+  } while (ret < 0 && fiber_io_would_block() &&
            !(flags & MSG_DONTWAIT) && should_block(sockfd));
 
   return ret;
@@ -406,7 +414,7 @@ ssize_t write(int fd, const void* buf, size_t count) {
   }
 
   int ret = fibershim_write(fd, buf, count);
-  while (ret < 0 && (errno == EWOULDBLOCK || errno == EAGAIN) &&
+  while (ret < 0 && fiber_io_would_block() &&
          should_block(fd)) {
     if (!fiber_wait_for_event(fd, FIBER_POLL_OUT)) {
       return -1;
@@ -423,7 +431,7 @@ ssize_t writev(int fd, const struct iovec* iov, int iovcnt) {
   }
 
   int ret = fibershim_writev(fd, iov, iovcnt);
-  while (ret < 0 && (errno == EWOULDBLOCK || errno == EAGAIN) &&
+  while (ret < 0 && fiber_io_would_block() &&
          should_block(fd)) {
     if (!fiber_wait_for_event(fd, FIBER_POLL_OUT)) {
       return -1;
@@ -440,7 +448,7 @@ ssize_t send(int sockfd, const void* buf, size_t len, int flags) {
   }
 
   ssize_t ret = fibershim_send(sockfd, buf, len, flags);
-  while (ret < 0 && (errno == EWOULDBLOCK || errno == EAGAIN) &&
+  while (ret < 0 && fiber_io_would_block() &&
          !(flags & MSG_DONTWAIT) && should_block(sockfd)) {
     if (!fiber_wait_for_event(sockfd, FIBER_POLL_OUT)) {
       return -1;
@@ -458,7 +466,7 @@ ssize_t sendto(int sockfd, const void* buf, size_t len, int flags,
   }
 
   ssize_t ret = fibershim_sendto(sockfd, buf, len, flags, dest_addr, addrlen);
-  while (ret < 0 && (errno == EWOULDBLOCK || errno == EAGAIN) &&
+  while (ret < 0 && fiber_io_would_block() &&
          !(flags & MSG_DONTWAIT) && should_block(sockfd)) {
     if (!fiber_wait_for_event(sockfd, FIBER_POLL_OUT)) {
       return -1;
@@ -475,7 +483,7 @@ ssize_t sendmsg(int sockfd, const struct msghdr* msg, int flags) {
   }
 
   ssize_t ret = fibershim_sendmsg(sockfd, msg, flags);
-  while (ret < 0 && (errno == EWOULDBLOCK || errno == EAGAIN) &&
+  while (ret < 0 && fiber_io_would_block() &&
          !(flags & MSG_DONTWAIT) && should_block(sockfd)) {
     if (!fiber_wait_for_event(sockfd, FIBER_POLL_OUT)) {
       return -1;
